@@ -1028,6 +1028,38 @@ def fresh_states(d, start, kind):
 FRESH_KINDS = ("tuple", "big-int", "built-string")
 
 
+def graft_dead_end(rng, d, labels):
+    """the same table plus a dead-end vertex (or a dead-end chain of two) that
+    one existing vertex reaches through two or three PARALLEL edges, that vertex
+    keeping a self-loop when a label is left, so that it survives pruning while
+    several of its transitions lead into a pruned vertex.  Random targets almost
+    never produce "survivor with parallel edges into a dead end" (seeded change
+    C10-r8-3: delete_vertex stops after the first transition it removes from
+    each in-neighbour's row)."""
+    if len(labels) < 2 or not d:
+        return d
+    d = {v: dict(row) for v, row in d.items()}
+    names = list(d)
+    u = names[int(rng.integers(0, len(names)))]
+    if all(isinstance(v, int) for v in names):
+        z, z2 = max(names) + 1, max(names) + 2
+    elif all(isinstance(v, str) for v in names):
+        z, z2 = "zdead", "zdead2"
+    else:
+        return d
+    npar = 2 if len(labels) == 2 else int(rng.integers(2, len(labels)))
+    order = [labels[i] for i in rng.permutation(len(labels))]
+    for lab in order[:npar]:
+        d[u][lab] = z
+    if len(order) > npar:
+        d[u][order[npar]] = u
+    d[z] = {}
+    if rng.random() < 0.5:
+        d[z][labels[0]] = z2
+        d[z2] = {}
+    return d
+
+
 def dense_case(run, rng, code):
     """code -> (table, route).  Every table meets every route; the results of
     the operations are re-queried for one route per table (rotating)."""
@@ -1070,6 +1102,8 @@ def wl_small_tables(run, rng, idx):
     code = int(rng.integers(0, tot))
     d = fl.dense_decode(code, n, labs)
     start = int(rng.integers(0, n))
+    if idx % 4 == 2:
+        d = graft_dead_end(rng, d, list(labs))
     if idx % 2 == 1:
         d, start = fresh_states(d, start, FRESH_KINDS[(idx // 2) % 3])
     exercise(run, rng, d, start, list(labs), fsa_build.ROUTES[int(rng.integers(0, NR))],
@@ -1078,6 +1112,8 @@ def wl_small_tables(run, rng, idx):
 
 def wl_random(run, rng, idx):
     d, start, labels = fl.random_automaton(rng, max_states=10)
+    if idx % 4 in (2, 3):
+        d = graft_dead_end(rng, d, list(labels))
     if idx % 2 == 1:
         d, start = fresh_states(d, start, FRESH_KINDS[(idx // 2) % 3])
     rt = fsa_build.ROUTES[idx % NR]
